@@ -159,6 +159,34 @@ func init() {
 				or.AllowMissing = true
 				judgeAllowMissing(c, GenSeq(c.R, cfg, or), o)
 			}},
+			{Name: "options-value-reused", Count: n(6000, 120000), Run: func(c *core.Ctx, idx int) {
+				// one *ApplyOptions value for a history of calls: unjudged calls that fail in odd ways (moves from
+				// absent places, from "/a/", from "/", removes through scalars) alternate with judged ones; the
+				// option the caller set must still be in force, unchanged, in every later call
+				on := V5Opts{NegIdx: c.R.Intn(2) == 0, EscapeHTML: true, AllowMissing: true}
+				reuseOpts, reuseFrozen, reuseSettings = on.Lib(), true, on
+				defer func() { reuseOpts, reuseFrozen = nil, false }()
+				for k := 0; k < 3; k++ {
+					hd := prof.Root(c.R)
+					var ops []string
+					for j := 1 + c.R.Intn(3); j > 0; j-- {
+						ops = append(ops, []string{
+							OpText("move", "/zz", "/a/", "", false), OpText("move", "/zz", "/", "", false), OpText("move", "/zz/y", "/nope", "", false),
+							OpText("move", "/q", "/0/", "", false), OpText("remove", "/a/b/c/d", "", "", false), OpText("move", "/a", "/a/b", "", false),
+							OpText("copy", "/zz", "/nope", "", false), OpText("test", "/a", "", "1", true), OpText("remove", "/", "", "", false),
+						}[c.R.Intn(9)])
+					}
+					ApplyV5(hd, PatchText(ops), on, "")
+					c.Eval(1)
+					o2 := V5Opts{NegIdx: on.NegIdx, EscapeHTML: true}
+					cfg := &SeqCfg{Prof: prof, MinOps: 1, MaxOps: 6, MissRate: 35, RootOK: true,
+						Kinds: []string{"remove", "remove", "remove", "add", "move", "replace", "copy", "test"}}
+					or := o2.Ref()
+					or.AllowMissing = true
+					judgeAllowMissing(c, GenSeq(c.R, cfg, or), o2)
+				}
+				c.Count("options-value-reused:histories")
+			}},
 			{Name: "mixed-sequences", Count: n(20000, 400000), Run: func(c *core.Ctx, idx int) {
 				o := V5Opts{NegIdx: c.R.Intn(2) == 0, EscapeHTML: c.R.Intn(2) == 0}
 				cfg := &SeqCfg{Prof: prof, MinOps: 2, MaxOps: 12, MissRate: 20, RootOK: true, ContinueAfterFail: true}
